@@ -300,6 +300,47 @@ def chars_groups(rng=None):
     return gs
 
 
+# ---- %s / %ls with a precision and an argument that is NOT NUL-terminated: an exact-size block of exactly
+# `precision` units (ISO: with a precision the array need not contain a NUL); any read of index `precision`
+# (or of index 0 for precision 0: a zero-length / one-past block) is a heap-buffer-overflow under ASan
+def strprec_groups(rng=None):
+    gs = []
+    for n in (0, 1, 2, 3, 7, 8, 16, 33):
+        bufs = [bytes((0x41 + i % 26) for i in range(n)),                     # exactly n bytes, no NUL
+                bytes((0x61 + i % 26) for i in range(n)) + b"Z",              # n + 1 bytes, no NUL at all
+                (b"xy\0" + b"w" * n)[:max(n, 3)] if n >= 3 else None]         # NUL inside the precision
+        for b in [x for x in bufs if x is not None]:
+            for flags, width in (("", None), ("", n + 4), ("-", n + 4), ("", 1), ("", ("*", n + 2)), ("-", ("*", -(n + 3)))):
+                wt, aw, wargs, w = "_", 0, [], width
+                if isinstance(width, tuple):
+                    aw = width[1]; wargs = ["arg i %d" % aw]; w = "*"; wt = "*"
+                elif width is not None:
+                    wt = str(width)
+                ft = FLAG_TOK[flags] if flags else "_"
+                # %.Ns and %.*s, with the ISO reference
+                for prec in (n, ("*", n)):
+                    pt, ap, pargs, pr = str(n), 0, [], prec
+                    if isinstance(prec, tuple):
+                        ap = n; pargs = ["arg i %d" % n]; pr = "*"; pt = "*"
+                    fmt = render(None, flags, w, pr, "", "s")
+                    gs.append(["fmt " + hx(fmt)] + wargs + pargs + ["arg s " + hx(b),
+                               "spec _ %s %s %s _ s %d %d 0 %s" % (ft, wt, pt, aw, ap, hx(b)), "tag strprec"])
+                if n == 0:
+                    fmt = render(None, flags, w, ".", "", "s")
+                    gs.append(["fmt " + hx(fmt)] + wargs + ["arg s " + hx(b),
+                               "spec _ %s %s . _ s %d 0 0 %s" % (ft, wt, aw, hx(b)), "tag strprec"])
+                # %.Nls : wchar_t array of exactly n units (frigg == model only)
+                if not isinstance(width, tuple):
+                    fmt = render(None, flags, w, n, "l", "s")
+                    gs.append(["fmt " + hx(fmt), "arg w " + hx(b), "tag strprec-wide"])
+            # positional: the unterminated array is argument 1 resp. 2
+            if True:
+                gs.append(["fmt " + hx(b"%%1$.%ds|" % n), "arg s " + hx(b), "spec 1 _ _ %d _ s 0 0 0 %s" % (n, hx(b)), "lit 7c", "tag strprec-positional"])
+                gs.append(["fmt " + hx(b"%%2$-%d.%ds|%%1$.1s" % (n + 2, n)), "arg s " + hx(b"k"), "arg s " + hx(b),
+                           "spec 2 - %d %d _ s 0 0 0 %s" % (n + 2, n, hx(b)), "lit 7c", "spec 1 _ _ 1 _ s 0 0 0 " + hx(b"k"), "tag strprec-positional"])
+    return gs
+
+
 # ---- model-only cases (outside ISO's defined behaviour or frigg extensions): no spec line
 def extension_groups():
     gs = []
@@ -492,6 +533,9 @@ def quick_cases(rng, n_dir=6000, n_mal=6000):
     smp = [s for s in smp if not avoid_huge(s)]
     for i in range(0, len(smp), 32):
         cases.append(("mal-smp-%d" % i, join_groups([raw_group(s, rng) for s in smp[i:i + 32]])))
+    sp = strprec_groups(rng)
+    for i in range(0, len(sp), 16):
+        cases.append(("mal-strprec-%d" % i, join_groups(sp[i:i + 16])))
     # every prefix of a few well-formed formats
     for j, f in enumerate([b"%-+ #0'12.34lld|%5$*.*hhx", b"ab%%c%3$-5.2s%.*s%p%ls", b"%1$d%2$*d%%%0$d"]):
         cases.append(("mal-prefix-%d" % j, join_groups([raw_group(f[:k], None, "prefix") for k in range(len(f) + 1)])))
